@@ -190,10 +190,11 @@ def run_case(case: dict) -> dict:
     step = -1
     import signal
     old = signal.signal(signal.SIGALRM, _on_alarm)
-    signal.setitimer(signal.ITIMER_REAL, CASE_TIMEOUT_S)
+    signal.setitimer(signal.ITIMER_REAL, CASE_TIMEOUT_S, 0.5)   # repeating: library code that swallows one raise cannot stop it
     try:
         return _run_case(case, params, stats)
     except CaseTimeout:
+        signal.setitimer(signal.ITIMER_REAL, 0)
         return {"ok": False, "clause": "total", "what": f"schema generation did not finish within {CASE_TIMEOUT_S}s", "step": case.get("_step", 0),
                 "exc": "CaseTimeout", "msg": ""}
     finally:
@@ -351,6 +352,9 @@ def classify(case: dict, res: dict) -> dict:
     elif res.get("clause") == "metaschema" and "validator crashed" in res.get("what", "") and res.get("detail", {}).get("depth", 0) >= 150 \
             and any(f.get("field_override_container") for f in upto):
         # the library swallowed its own RecursionError (except Exception -> Any) and returned a ~1000-deep document
+        kind = "field-override-container"
+    elif res.get("clause") == "accumulate" and any(f.get("field_override_container") for f in upto):
+        # the ~1000-deep document of that finding depends on the stack depth at which the library's own RecursionError hit
         kind = "field-override-container"
     elif res.get("clause") == "accumulate":
         if _clash_across(upto):
